@@ -382,9 +382,11 @@ func (m *Monitor) refundRefused(o Op, why string) {
 	ctx := m.w.C.Ctx
 	c := o.C
 	if why == "result" {
-		if oc, ok := m.w.xs(c).Keeper.GetOutgoingBridgeCallByNonce(ctx, uint64(o.ID)); ok {
-			kinds = m.kindsOf(c, oc.Tokens)
+		oc, ok := m.w.xs(c).Keeper.GetOutgoingBridgeCallByNonce(ctx, uint64(o.ID))
+		if !ok {
+			return // a result for a call that does not exist: nothing to refund
 		}
+		kinds = m.kindsOf(c, oc.Tokens)
 	} else {
 		// the observation aborted: the first call (ascending nonce) is the one whose time-out refund ran
 		m.w.xs(c).Keeper.IterateOutgoingBridgeCalls(ctx, func(oc *crosschaintypes.OutgoingBridgeCall) bool {
